@@ -24,6 +24,9 @@ abbrev Lit := Nat × Bool
 abbrev Clause := List Lit
 abbrev CNF := List Clause
 
+/-- The assignment `σ` satisfies every clause of `cnf` (the meaning of a CNF). -/
+def Sat (σ : Nat → Bool) (cnf : CNF) : Prop := ∀ cl ∈ cnf, ∃ l ∈ cl, σ l.1 = l.2
+
 /-- One entry of the Python dict `assigns`: name ↦ (val, is_decide, level, clause_id). -/
 structure Asg where
   name : Nat
@@ -261,17 +264,19 @@ def resolveStep (c d : Clause) : Option Clause :=
     if c.all (fun x => x.1 != l.1 || x.2 == l.2) && d.all (fun x => x.1 != l.1 || x.2 == !l.2)
     then some (resolveCanon c d l.1) else none
 
+/-- One step of a replay: resolve the clause so far with clause number `j`. -/
+def replayStep (cnf : CNF) (acc : Option Clause) (j : Nat) : Option Clause :=
+  match acc, cnf[j]? with
+  | some c, some d => resolveStep c d
+  | _, _ => none
+
 /-- Fold `resolution` over the clauses named by a proof. -/
 def replayProof (cnf : CNF) : List Nat → Option Clause
   | [] => none
   | i :: rest =>
     match cnf[i]? with
     | none => none
-    | some c0 =>
-      rest.foldl (fun acc j =>
-        match acc, cnf[j]? with
-        | some c, some d => resolveStep c d
-        | _, _ => none) (some c0)
+    | some c0 => rest.foldl (replayStep cnf) (some c0)
 
 def sameSet (a b : Clause) : Bool := a.all b.contains && b.all a.contains
 
